@@ -108,9 +108,28 @@ Plan generate(Rng &rng, const Opts &opts, uint64_t)
     p.cfg["parsed"] = opts.f("parsed", rng.chance(1, 4) ? 1 : 0);
     std::vector<long> comp(static_cast<size_t>(nVars));
     uint64_t col[5] = {0, 0, 0, 0, 0};
-    bool havePlant = planted != 0 && findCollision(rng, col);
+    bool havePlant = planted == 1 && findCollision(rng, col);
     if (havePlant) {
         p.cfg["plantbase"] = long(col[0]);
+        p.cfg["parsed"] = 0;
+    }
+    // Lattice layouts: 16 variables on a 4 x 4 grid base + p*s1 + q*(s1 << m).  Keys that fold the two addresses
+    // together with shifts, XOR or truncation collide on such grids whatever their exact formula; the oracle and the
+    // key-bytes probe do not need to know it.
+    bool lattice = planted == 2;
+    uint64_t latS1 = 0, latS2 = 0, latBase = 0x300000000000ULL;
+    if (lattice) {
+        static const uint64_t s1s[] = {0x40, 0x100, 0x400};
+        static const int shifts[] = {4, 8, 12, 16, 20};
+        latS1 = s1s[rng.below(3)];
+        latS2 = latS1 << shifts[rng.below(5)];
+        if (latS2 < 4 * latS1 + 0x100) {
+            latS2 = 8 * latS1;
+        }
+        nVars = std::max<long>(nVars, 16);
+        comp.assign(static_cast<size_t>(nVars), 0);
+        p.cfg["plantbase"] = long(latBase);
+        p.cfg["plantzone"] = long(4 * latS2 + 0x10000);
         p.cfg["parsed"] = 0;
     }
     for (long i = 0; i < nVars; ++i) {
@@ -122,6 +141,10 @@ Plan generate(Rng &rng, const Opts &opts, uint64_t)
             // variables 0..3 are a, b, c, d; put them in four different components
             comp[size_t(i)] = i % nComps;
             s.a = {comp[size_t(i)], long(col[1 + i])};
+        }
+        if (lattice && i < 16) {
+            comp[size_t(i)] = i % nComps;
+            s.a = {comp[size_t(i)], long(latBase + 0x1000 + uint64_t(i % 4) * latS1 + uint64_t(i / 4) * latS2)};
         }
         p.steps.push_back(s);
     }
@@ -314,7 +337,7 @@ void execute(const Plan &plan, Ctx &ctx)
     simalloc::beginRun(int(policy), uint64_t(plan.c("allocseed", 1)));
     bool plantOk = false;
     if (plan.c("plantbase", 0) != 0 && simalloc::active()) {
-        plantOk = simalloc::setPlantZone(uintptr_t(plan.c("plantbase")), ZONE);
+        plantOk = simalloc::setPlantZone(uintptr_t(plan.c("plantbase")), size_t(plan.c("plantzone", long(ZONE))));
         ctx.count(plantOk ? "plant_zone_mapped" : "plant_zone_unmappable");
     }
     long nComps = std::max<long>(1, plan.c("comps", 2));
@@ -517,7 +540,12 @@ void execute(const Plan &plan, Ctx &ctx)
         ctx.count(policy == 1 ? "fault_layout_reversed" : "fault_layout_shuffled");
     }
     if (plan.c("plantbase", 0) != 0 && plantOk) {
-        ctx.count(obs.keyCollisions > 0 ? "planted_collision_confirmed_by_real_key" : "planted_collision_not_confirmed");
+        if (plan.c("plantzone", 0) != 0) {
+            ctx.count("fault_lattice_layout");
+            ctx.count(obs.keyCollisions > 0 ? "lattice_layout_key_collisions_seen" : "lattice_layout_no_key_collision");
+        } else {
+            ctx.count(obs.keyCollisions > 0 ? "planted_collision_confirmed_by_real_key" : "planted_collision_not_confirmed");
+        }
     }
     libcellml::verif::equivalenceCacheObserver = nullptr;
     gObs = nullptr;
